@@ -341,5 +341,43 @@ def r7_not_shapes_agree(chk: Check) -> None:
         chk.ok("C02.R7", cons, construct, "", cons.loc())
 
 
+def r8_existential_predicates(chk: Check) -> None:
+    chk.rule("C02.R8", "QUANTIFIER(`can something here be negated`): get_parameters_value falls back to POSITIVE data for a whole location when can_negate_path_parameters / can_negate_headers says no; these predicates are EXISTENTIAL over the parameters of the location (`any(...)`, or a loop that returns True on the first negatable one) - a universal form (`all(...)`, a loop that returns False on the first non-negatable parameter) turns `one plain string header next to an integer header` into `nothing to negate`: the operation is skipped or silently gets positive data only", floor=2)
+    P = chk.project
+    n = 0
+    for name in ("can_negate_path_parameters", "can_negate_headers"):
+        fn = P.func(f"{HYP}:{name}")
+        construct = f"{name}: true when ANY parameter can be negated"
+        verdicts: list[tuple[bool, ast.AST, str]] = []
+        for r in walk_body(fn.node):
+            if not isinstance(r, ast.Return) or r.value is None:
+                continue
+            in_loop = any(isinstance(a, (ast.For, ast.While)) for a in ancestors(r) if a is not fn.node)
+            for c in [x for x in ast.walk(r.value) if isinstance(x, ast.Call) and isinstance(x.func, ast.Name) and x.func.id in ("any", "all")]:
+                neg = any(isinstance(a, ast.UnaryOp) and isinstance(a.op, ast.Not) and is_within(c, a) for a in ast.walk(r.value))
+                existential = (c.func.id == "any") != neg  # `not all(not p)` is existential as well, but `not any` / `all` are not
+                if c.func.id == "all" and neg:
+                    # not all(p(x)) == any(not p(x)): existential over the NEGATED element test - cannot tell polarity
+                    verdicts.append((None, r, unparse(c, 60)))  # type: ignore[arg-type]
+                else:
+                    verdicts.append((existential, r, unparse(c, 60)))
+            if in_loop and isinstance(r.value, ast.Constant) and isinstance(r.value.value, bool):
+                verdicts.append((r.value.value is True, r, f"`return {r.value.value}` inside the loop over the parameters"))
+        n += 1
+        if not verdicts:
+            chk.undecided("C02.R8", fn, construct, "neither any()/all() nor a loop with an early return found", fn.loc())
+        elif any(v is False for v, _, _ in verdicts):
+            _, node, what = next(x for x in verdicts if x[0] is False)
+            chk.violation("C02.R8", fn, construct,
+                          f"{what}: the predicate is universal - ONE parameter that cannot be negated (a plain `type: string` header, e.g. an apiKey security header) makes the whole location fall back to positive data although a sibling parameter can be violated; with no other negatable input the operation is reported as skipped / never gets a negative case",
+                          fn.loc(node))
+        elif any(v is None for v, _, _ in verdicts):
+            chk.undecided("C02.R8", fn, construct, "negated all(): polarity of the element test not analysed", fn.loc())
+        else:
+            chk.ok("C02.R8", fn, construct, verdicts[0][2], fn.loc(verdicts[0][1]))
+    if n < 2:
+        chk.undecided("C02.R8", "<discovery>", f"sites={n}", "predicates not found")
+
+
 def rules(tier: str) -> list:  # type: ignore[type-arg]
-    return [r1_invalidity_filter, r2_factory_label, r3_something_negated, r4_labels, r5_mutations, r6_memo, r7_not_shapes_agree]
+    return [r1_invalidity_filter, r2_factory_label, r3_something_negated, r4_labels, r5_mutations, r6_memo, r7_not_shapes_agree, r8_existential_predicates]
